@@ -328,6 +328,10 @@ def main(tier, seed):
             for o in pairs:
                 pa, pb = corpus.get(o["a"], {}).get("primary"), corpus.get(o["b"], {}).get("primary")
                 o["combined"] = [pa, pb] if pa and pb else None
+            pairs_pre = res.get("pairs_pre") or []
+            for o in pairs_pre:
+                o["combined"] = pairs[o["pre_of"]]["combined"]
+            chk.stats["pairs into an output path holding an earlier output"] = len(pairs_pre)
             # statistics
             for o in obs:
                 chk.count()
@@ -389,7 +393,7 @@ def main(tier, seed):
                 why = ch.oracle_identify(o)
                 if why:
                     fails.append({"kind": "identify", "spec": o["spec"], "oracle": why})
-            for o in pairs:
+            for o in pairs + pairs_pre:
                 why = ch.oracle_pair(o)
                 if why:
                     fails.append(pair_case(o, res, why))
@@ -433,7 +437,10 @@ def main(tier, seed):
 
 def pair_case(o, res, why):
     specs = {f"f{i}": sp for i, sp in enumerate(ch.pair_corpus_specs())}
-    return {"kind": "pair", "a": specs[o["a"]], "b": specs[o["b"]], "out": o["out"],
+    pre = None
+    if o.get("pre_out"):
+        pre = [specs[i] for i in o["pre_pair"]] if o.get("pre_pair") else []
+    return {"kind": "pair", "a": specs[o["a"]], "b": specs[o["b"]], "out": o["out"], "pre": pre,
             "combined": o.get("combined"), "oracle": why,
             "observed": {"status": o["status"], "value": o["value"], "new_paths": o["new"]}}
 
